@@ -4,6 +4,7 @@ These are *tests* of the transcription of the paper into `Spec/`, run by the Lea
 evaluator at build time; they are not theorems.  A mismatch fails the build.
 -/
 import SkinnyVerif.Spec.Skinny
+import SkinnyVerif.Spec.Mantis
 
 namespace SkinnyVerif.Spec.Vectors
 open SkinnyVerif.Spec.Skinny
@@ -40,5 +41,18 @@ def runSkinnyVectors : IO Unit := do
   check "S8[0..7]" ((List.range 8).map (fun i => (S8 (BitVec.ofNat 8 i)).toNat) == [0x65, 0x4c, 0x6a, 0x42, 0x4b, 0x63, 0x43, 0x6b])
 
 #eval runSkinnyVectors
+
+def mantisVectors : List (Nat × String × String × String × String) := [
+  (5, "92f09952c625e3e9d7a060f714c0292b", "ba912e6f1055fed2", "3b5c77a4921f9718", "d6522035c1c0c6c1"),
+  (6, "92f09952c625e3e9d7a060f714c0292b", "ba912e6f1055fed2", "d6522035c1c0c6c1", "60e43457311936fd"),
+  (7, "92f09952c625e3e9d7a060f714c0292b", "ba912e6f1055fed2", "60e43457311936fd", "308e8a07f168f517"),
+  (8, "92f09952c625e3e9d7a060f714c0292b", "ba912e6f1055fed2", "308e8a07f168f517", "971ea01a86b410bb")]
+
+def runMantisVectors : IO Unit := do
+  for (r, k, t, p, c) in mantisVectors do
+    check s!"MANTIS-{r} enc" (Mantis.encrypt r (hex k) (hex t) (hex p) == hex c)
+    check s!"MANTIS-{r} dec" (Mantis.decrypt r (hex k) (hex t) (hex c) == hex p)
+
+#eval runMantisVectors
 
 end SkinnyVerif.Spec.Vectors
